@@ -2,7 +2,9 @@ package server
 
 import (
 	"io"
+	"runtime"
 	"sync"
+	"sync/atomic"
 	"time"
 
 	"github.com/cbeuw/Cloak/internal/server/usermanager"
@@ -27,6 +29,11 @@ type vFakeManager struct {
 	users   map[[16]byte]*vFakeUser
 	now     func() time.Time
 	uploads [][]usermanager.StatusUpdate
+	// authYield: the "database query" of AuthoriseNewSession takes a while: the caller yields the processor up to
+	// that many times, or until a second caller is inside the query too (no clock involved: callers may hold locks
+	// others wait for, which stops a bubble's virtual clock)
+	authYield  int
+	authInside atomic.Int32
 }
 
 func newFakeManager() *vFakeManager {
@@ -59,6 +66,13 @@ func (m *vFakeManager) AuthenticateUser(UID []byte) (int64, int64, error) {
 }
 
 func (m *vFakeManager) AuthoriseNewSession(UID []byte, ai usermanager.AuthorisationInfo) error {
+	if m.authYield > 0 {
+		m.authInside.Add(1)
+		for i := 0; i < m.authYield && m.authInside.Load() < 2; i++ {
+			runtime.Gosched()
+		}
+		defer m.authInside.Add(-1)
+	}
 	m.mu.Lock()
 	defer m.mu.Unlock()
 	u := m.get(UID)
